@@ -1,1 +1,114 @@
-From PV Require Import M_Measure.
+(* C15 -- Unit conversion and value formatting preserve magnitude.
+   Property theorems only: each is closed by [exact] of a lemma from L_Measure and followed by
+   Print Assumptions.  [unit_types] is REGENERATED from /repo on every run (Gen/Gen_UnitTable.v). *)
+From Coq Require Import QArith Qabs.
+From PV Require Import M_Measure S_Measure L_Measure Gen.Gen_UnitTable.
+Open Scope Z_scope.
+
+(* -- facts about the table the code has now (re-proved whenever the table changes) -- *)
+Fixpoint nodupb (l : list string) : bool :=
+  match l with [] => true | a :: r => negb (existsb (String.eqb a) r) && nodupb r end.
+Definition all_aliases (uts : list unit_type) : list string :=
+  flat_map (fun ut => flat_map u_aliases (ut_units ut)) uts.
+
+Theorem table_factors_positive : table_ok unit_types = true.
+Proof. vm_compute. reflexivity. Qed.
+Print Assumptions table_factors_positive.
+
+(* no spelling is an alias of two units (in particular: of units of two families) *)
+Theorem aliases_unique : nodupb (all_aliases unit_types) = true.
+Proof. vm_compute. reflexivity. Qed.
+Print Assumptions aliases_unique.
+
+(* the memory and time families have unit ratios that are whole at two decimals (needed by
+   label_monotone); the GCU family's float64 factors (1e-9 ...) do not, and is excluded there *)
+Theorem memory_time_centi_integral :
+  forallb (fun ut => centi_integral ut || negb (existsb (String.eqb (u_name (ut_default ut))) ["B"; "s"]%string))
+          unit_types = true.
+Proof. vm_compute. reflexivity. Qed.
+Print Assumptions memory_time_centi_integral.
+
+(* -- conversion -- *)
+Theorem convert_exact : forall uts x f t ut u v,
+  family_of uts f = Some (ut, u) -> is_auto t = false -> sniff_unit ut t = Some v ->
+  (fst (scale uts x f t) == inject_Z x * u_factor u / u_factor v)%Q /\ snd (scale uts x f t) = u_name v.
+Proof. exact convert_exact_lemma. Qed.
+Print Assumptions convert_exact.
+
+Theorem convert_identity : forall uts x f ut u,
+  table_ok uts = true -> family_of uts f = Some (ut, u) -> is_auto f = false ->
+  (fst (scale uts x f f) == inject_Z x)%Q /\ snd (scale uts x f f) = u_name u.
+Proof. exact convert_identity_lemma. Qed.
+Print Assumptions convert_identity.
+
+Theorem convert_negation : forall uts x f t,
+  table_ok uts = true -> x <> min_int64 -> x <= max_int64 ->
+  (fst (scale uts (- x) f t) == - fst (scale uts x f t))%Q /\ snd (scale uts (- x) f t) = snd (scale uts x f t).
+Proof. exact convert_negation_lemma. Qed.
+Print Assumptions convert_negation.
+
+Theorem never_crosses_families : forall uts x f t ut u,
+  table_ok uts = true -> family_of uts f = Some (ut, u) -> In (snd (scale uts x f t)) (names_of ut).
+Proof. exact never_crosses_lemma. Qed.
+Print Assumptions never_crosses_families.
+
+Theorem unknown_unit_not_known : forall uts x f t,
+  family_of uts f = None ->
+  (fst (scale uts x f t) == inject_Z x)%Q /\ snd (scale uts x f t) = (if uninteresting t then "" else t)%string.
+Proof. exact unknown_unit_lemma. Qed.
+Print Assumptions unknown_unit_not_known.
+
+(* -- automatic unit selection -- *)
+Theorem auto_picks_largest_ge_one : forall uts x f t ut u,
+  table_ok uts = true -> family_of uts f = Some (ut, u) -> is_auto t = true -> 0 <= x ->
+  let phys := (inject_Z x * u_factor u)%Q in
+  let '(q, name) := scale uts x f t in
+  (exists w, In w (ut_units ut) /\ name = u_name w /\ q = (phys / u_factor w)%Q /\ (1 <= q)%Q /\
+             forall w', In w' (ut_units ut) -> (1 <= phys / u_factor w')%Q -> (u_factor w' <= u_factor w)%Q)
+  \/ ((forall w', In w' (ut_units ut) -> ~ (1 <= phys / u_factor w')%Q) /\
+      name = u_name (ut_default ut) /\ q = (phys / u_factor (ut_default ut))%Q).
+Proof. exact auto_target_lemma. Qed.
+Print Assumptions auto_picks_largest_ge_one.
+
+(* F17: the statement above cannot be extended to MinInt64 via negation on the unchanged tree *)
+Theorem auto_min_int64_refuted :
+  snd (scale unit_types min_int64 "bytes" "auto") = "B"%string /\
+  snd (scale unit_types (min_int64 + 1) "bytes" "auto") = "PB"%string.
+Proof. vm_compute. split; reflexivity. Qed.
+Print Assumptions auto_min_int64_refuted.
+
+(* -- labels -- *)
+Theorem label_readback : forall w p,
+  (0 < u_factor w)%Q -> (Qabs (lab w p - Qabs p) <= (1 # 200) * u_factor w)%Q.
+Proof. exact lab_close. Qed.
+Print Assumptions label_readback.
+
+Theorem label_monotone : forall uts f ut u x y,
+  table_ok uts = true -> centi_integral ut = true -> family_of uts f = Some (ut, u) ->
+  1 <= x -> x <= y ->
+  exists wx wy, In wx (ut_units ut) /\ In wy (ut_units ut) /\
+    scale uts x f "auto" = ((inject_Z x * u_factor u / u_factor wx)%Q, u_name wx) /\
+    scale uts y f "auto" = ((inject_Z y * u_factor u / u_factor wy)%Q, u_name wy) /\
+    (lab wx (inject_Z x * u_factor u) <= lab wy (inject_Z y * u_factor u))%Q.
+Proof. exact label_monotone_lemma. Qed.
+Print Assumptions label_monotone.
+
+(* -- percentages -- *)
+Theorem percentage_abs_ratio : forall v t, t <> 0 ->
+  (pct_ratio v t == Qabs (inject_Z v) / Qabs (inject_Z t) * 100)%Q.
+Proof. exact pct_ratio_abs. Qed.
+Print Assumptions percentage_abs_ratio.
+
+Theorem percentage_sign_blind : forall v t,
+  (pct_ratio (- v) t == pct_ratio v t)%Q /\ (pct_ratio v (- t) == pct_ratio v t)%Q.
+Proof. exact pct_ratio_sign. Qed.
+Print Assumptions percentage_sign_blind.
+
+(* -- non-vacuity: the hypotheses are met by the real table -- *)
+Example family_of_kb : exists ut u, family_of unit_types "KiloBytes" = Some (ut, u) /\ u_name u = "kB"%string
+                                   /\ centi_integral ut = true.
+Proof. vm_compute. eexists. eexists. repeat split. Qed.
+Example scale_example : (fst (scale unit_types 2048 "kb" "mb") == 2)%Q /\ snd (scale unit_types 2048 "kb" "mb") = "MB"%string.
+Proof. vm_compute. split; reflexivity. Qed.
+Example label_example : scaled_label unit_types 1536 "bytes" "auto" = "1.50kB"%string.
+Proof. vm_compute. reflexivity. Qed.
